@@ -98,7 +98,7 @@ pub mod model {
     use std::time::Duration;
 
     pub const MAXN: usize = @MAXN@;
-    pub const MAXT: usize = @MAXT@;
+    pub const MAXT: usize = 16;
     pub const MAXOBS: usize = 12;
     pub const NOBODY: u8 = 255;
     const SPAWNER: usize = usize::MAX;
@@ -121,6 +121,7 @@ pub mod model {
         obs_k: usize,
         obs_policy: u8,
         cut_p: usize,
+        unclaimed_from: usize,
         cut: Option<usize>,
         turn: usize,
         w: [W; MAXT],
@@ -152,6 +153,7 @@ pub mod model {
         obs_k: 0,
         obs_policy: 0,
         cut_p: 0,
+        unclaimed_from: usize::MAX,
         cut: None,
         turn: SPAWNER,
         w: [W::NotSpawned; MAXT],
@@ -204,6 +206,8 @@ pub mod model {
         };
         let obs: [u8; MAXOBS] = crate::kani::any();
         let cut_p: u8 = crate::kani::any();
+        let u: u8 = crate::kani::any();
+        let unclaimed_from = if owners.is_none() { crate::kani::assume((u as usize) <= n); u as usize } else { n };
         set_available(t);
         let mut c = CTL.lock().unwrap();
         c.active = true;
@@ -212,6 +216,7 @@ pub mod model {
         c.obs = obs;
         c.obs_policy = obs_policy;
         c.cut_p = cut_p as usize;
+        c.unclaimed_from = unclaimed_from;
         drop(c);
         install();
     }
@@ -230,6 +235,9 @@ pub mod model {
     }
 
     pub fn begin_unscheduled(t: usize) {
+        let d: u8 = crate::kani::any();
+        crate::kani::assume((d as usize) < t);
+        DRAINER.store(d as usize, Ordering::SeqCst);
         set_available(t);
         // first worker drains everything: every position owned by worker 0
         let mut c = CTL.lock().unwrap();
@@ -244,6 +252,7 @@ pub mod model {
     }
 
     pub static AVAILABLE: AtomicUsize = AtomicUsize::new(2);
+    static DRAINER: AtomicUsize = AtomicUsize::new(0);
 
     extern "C" {
         fn sched_setaffinity(pid: i32, cpusetsize: usize, mask: *const u64) -> i32;
@@ -285,6 +294,9 @@ pub mod model {
         }
     }
 
+    pub fn drainer() -> usize {
+        DRAINER.load(Ordering::SeqCst)
+    }
     pub fn scopes() -> usize {
         CTL.lock().unwrap().scopes
     }
@@ -523,7 +535,7 @@ pub mod model {
         loop {
             let (p, k, st, pp, is_matched, spawned) = {
                 let c = CTL.lock().unwrap();
-                let eff = limit.min(c.n).min(c.cut.unwrap_or(usize::MAX));
+                let eff = limit.min(c.n).min(c.cut.unwrap_or(usize::MAX)).min(c.unclaimed_from);
                 if c.next_pos >= eff {
                     break;
                 }
@@ -607,11 +619,22 @@ pub mod model {
             (m, target)
         };
         if !is_modelled {
-            // serialise: run this worker to completion
-            loop {
-                match resume(k) {
-                    W::Done => break,
-                    _ => continue,
+            // unscheduled: the drainer consumes the source; workers spawned before it stay blocked at their start
+            // until it is done (so they find the source exhausted), later ones run to completion when spawned
+            let d = DRAINER.load(Ordering::SeqCst);
+            if k < d {
+                return;
+            }
+            let mut order = vec![k];
+            if k == d {
+                order.extend(0..k);
+            }
+            for j in order {
+                loop {
+                    match resume(j) {
+                        W::Done => break,
+                        _ => continue,
+                    }
                 }
             }
             return;
